@@ -1,6 +1,7 @@
 package main
 
 import (
+	"encoding/json"
 	"fmt"
 	"go/token"
 	"go/types"
@@ -135,7 +136,7 @@ func checkC18(p *Prog, res *Result, tier string) {
 	res.rule("C18-R4", "SyncReadRevision returns nil only on the leader branch or after SetCurrentRevision(revision fetched from the leader with a nil error)", 2)
 	res.rule("C18-R7", "at most one node passes the IsLeader() guards at a time only while the lock is taken by at most one candidate per observed record (C14-R2/R3/R6)", 3)
 	res.rule("C18-R6", "no validating step of the leader fetch fails silently: the error of the request and of decoding the answer is returned, or some other non-nil error is (a step whose data is handed to a later checked step, such as reading the body, is validated by that step)", 2)
-	res.rule("C18-R5", "the revision publisher returns the backend's committed revision only under IsLeader()==true and writes a non-2xx status first otherwise; the fetch returns success only for status 200", 3)
+	res.rule("C18-R5", "the revision publisher returns the backend's committed revision only under IsLeader()==true and otherwise answers with a non-2xx status first (or with a constant body the follower cannot decode); the fetch returns success only for status 200", 3)
 
 	nGuards := 0
 	for f := range lr.guardFns {
@@ -416,8 +417,22 @@ func checkPublisher(p *Prog, r *Roles, lr *leaderRoles, res *Result) {
 			if first.Common().Method.Name() == "WriteHeader" {
 				code, isConst = constInt(rg.origin(first.Common().Args[0], firstFr))
 			}
+			// a body written first fixes status 200; the follower adopts a revision only from an answer it can decode
+			// (C18-R6), so a constant body that is no JSON document still makes the follower's read fail
+			undecodable := false
+			if first.Common().Method.Name() == "Write" && len(first.Common().Args) == 1 {
+				v := rg.origin(first.Common().Args[0], firstFr)
+				if cv, ok := resolve(v).(*ssa.Convert); ok {
+					v = cv.X
+				}
+				if s, ok := constString(resolve(v)); ok && !json.Valid([]byte(s)) {
+					undecodable = true
+				}
+			}
 			if first.Common().Method.Name() == "WriteHeader" && isConst && code >= 400 {
 				res.ok("C18-R5", construct, p.pos(first.Pos()), fmt.Sprintf("first write on the non-leader branch is WriteHeader(%d)", code))
+			} else if undecodable {
+				res.ok("C18-R5", construct, p.pos(first.Pos()), "the non-leader branch answers (with status 200) a constant body that is not a JSON document: the follower's decode fails and its read is refused (C18-R6)")
 			} else {
 				res.bad("C18-R5", construct, p.pos(first.Pos()), "on the non-leader branch the first call on the ResponseWriter is not WriteHeader(4xx/5xx): net/http then answers 200 and a follower adopts a bogus revision")
 			}
